@@ -1047,4 +1047,145 @@ theorem fromList_spec {cmp : E → E → Int} {rank : E → Int} (hc : Lawful cm
       · exact Or.inl h
       · exact Or.inr (Or.inr h)
 
+/-- `t` represents the mathematical set `s` -/
+def SRel (rank : E → Int) (t : STree E) (s : E → Prop) : Prop := Inv rank t ∧ ∀ x, x ∈ abs t ↔ s x
+
+theorem srel_empty (rank : E → Int) : SRel rank (STree.empty : STree E) (fun _ => False) := by
+  simp [SRel, Inv, Bal, Ordered, abs]
+
+inductive SOp (E : Type) where
+  | ins (d s : Nat) (x : E)
+  | rem (d s : Nat) (x : E)
+  | uni (d a b : Nat)
+  | int (d a b : Nat)
+  | dif (d a b : Nat)
+  | fil (d s : Nat) (f : E → Bool)
+  | parT (d s : Nat) (f : E → Bool)
+  | parF (d s : Nat) (f : E → Bool)
+  | splL (d s : Nat) (k : E)
+  | splR (d s : Nat) (k : E)
+  | frl (d : Nat) (xs : List E)
+
+def setReg {A : Type} (regs : Nat → A) (d : Nat) (x : A) : Nat → A := fun i => if i = d then x else regs i
+
+/-- `union` with fuel computed from the operands (enough by `union_spec`) -/
+def unionF (cmp : E → E → Int) (a b : STree E) : Option (STree E) :=
+  match union cmp ((abs a).length + (abs b).length + 1) a b with
+  | some r => r
+  | none => none
+
+def stepOp (cmp : E → E → Int) (regs : Nat → STree E) : SOp E → Option (Nat → STree E)
+  | .ins d s x => (insert cmp (regs s) x).map (setReg regs d)
+  | .rem d s x => (remove cmp (regs s) x).map (setReg regs d)
+  | .uni d a b => (unionF cmp (regs a) (regs b)).map (setReg regs d)
+  | .int d a b => (intersection cmp (regs a) (regs b)).map (setReg regs d)
+  | .dif d a b => (diff cmp (regs a) (regs b)).map (setReg regs d)
+  | .fil d s f => (filter f (regs s)).map (setReg regs d)
+  | .parT d s f => (partition f (regs s)).map (fun p => setReg regs d p.1)
+  | .parF d s f => (partition f (regs s)).map (fun p => setReg regs d p.2)
+  | .splL d s k => (split cmp (regs s) k).map (fun p => setReg regs d p.1)
+  | .splR d s k => (split cmp (regs s) k).map (fun p => setReg regs d p.2.2)
+  | .frl d xs => (fromList cmp xs .empty).map (setReg regs d)
+
+def specOp (rank : E → Int) (ss : Nat → E → Prop) : SOp E → (Nat → E → Prop)
+  | .ins d s x => setReg ss d (fun p => p = x ∨ ss s p)
+  | .rem d s x => setReg ss d (fun p => ss s p ∧ p ≠ x)
+  | .uni d a b => setReg ss d (fun p => ss a p ∨ ss b p)
+  | .int d a b => setReg ss d (fun p => ss a p ∧ ss b p)
+  | .dif d a b => setReg ss d (fun p => ss a p ∧ ¬ ss b p)
+  | .fil d s f => setReg ss d (fun p => ss s p ∧ f p = true)
+  | .parT d s f => setReg ss d (fun p => ss s p ∧ f p = true)
+  | .parF d s f => setReg ss d (fun p => ss s p ∧ f p = false)
+  | .splL d s k => setReg ss d (fun p => ss s p ∧ rank p < rank k)
+  | .splR d s k => setReg ss d (fun p => ss s p ∧ rank k < rank p)
+  | .frl d xs => setReg ss d (fun p => p ∈ xs)
+
+def runOps (cmp : E → E → Int) : (Nat → STree E) → List (SOp E) → Option (Nat → STree E)
+  | regs, [] => some regs
+  | regs, op :: ops =>
+    match stepOp cmp regs op with
+    | none => none
+    | some regs' => runOps cmp regs' ops
+
+def specOps (rank : E → Int) : (Nat → E → Prop) → List (SOp E) → (Nat → E → Prop)
+  | ss, [] => ss
+  | ss, op :: ops => specOps rank (specOp rank ss op) ops
+
+theorem srel_set {rank : E → Int} {regs : Nat → STree E} {ss : Nat → E → Prop}
+    (h : ∀ i, SRel rank (regs i) (ss i)) (d : Nat) {t : STree E} {s : E → Prop} (ht : SRel rank t s) :
+    ∀ i, SRel rank (setReg regs d t i) (setReg ss d s i) := by
+  intro i
+  simp only [setReg]
+  split
+  · exact ht
+  · exact h i
+
+theorem step_refines {cmp : E → E → Int} {rank : E → Int} (hc : Lawful cmp rank)
+    (regs : Nat → STree E) (ss : Nat → E → Prop) (h : ∀ i, SRel rank (regs i) (ss i)) (op : SOp E) :
+    ∃ regs', stepOp cmp regs op = some regs' ∧ ∀ i, SRel rank (regs' i) (specOp rank ss op i) := by
+  cases op with
+  | ins d s x =>
+    obtain ⟨t', e, i, m⟩ := inv_insert hc (regs s) x (h s).1
+    exact ⟨_, by simp [stepOp, e], srel_set h d ⟨i, fun p => by rw [m, (h s).2]⟩⟩
+  | rem d s x =>
+    obtain ⟨t', e, b, o, m, _⟩ := remove_spec hc (regs s) x (h s).1.1 (h s).1.2
+    exact ⟨_, by simp [stepOp, e], srel_set h d ⟨⟨b, o⟩, fun p => by rw [m, (h s).2]⟩⟩
+  | uni d a b =>
+    obtain ⟨t', e, i, m⟩ := union_spec hc _ (regs a) (regs b) (h a).1 (h b).1 (Nat.lt_succ_self _)
+    exact ⟨_, by simp [stepOp, unionF, e], srel_set h d ⟨i, fun p => by rw [m, (h a).2, (h b).2]⟩⟩
+  | int d a b =>
+    obtain ⟨t', e, i, m⟩ := intersection_spec hc (regs a) (regs b) (h a).1 (h b).1
+    exact ⟨_, by simp [stepOp, e], srel_set h d ⟨i, fun p => by rw [m, (h a).2, (h b).2]⟩⟩
+  | dif d a b =>
+    obtain ⟨t', e, i, m⟩ := diff_spec hc (regs a) (regs b) (h a).1 (h b).1
+    exact ⟨_, by simp [stepOp, e], srel_set h d ⟨i, fun p => by rw [m, (h a).2, (h b).2]⟩⟩
+  | fil d s f =>
+    obtain ⟨t', e, b, a⟩ := filter_spec f (regs s) (h s).1.1
+    refine ⟨_, by simp [stepOp, e], srel_set h d ⟨⟨b, ?_⟩, fun p => by rw [a, List.mem_filter, (h s).2]⟩⟩
+    simp only [Ordered, a]; exact (h s).1.2.sublist List.filter_sublist
+  | parT d s f =>
+    obtain ⟨x, y, e, b1, b2, a1, a2⟩ := partition_spec f (regs s) (h s).1.1
+    refine ⟨_, by simp [stepOp, e], srel_set h d ⟨⟨b1, ?_⟩, fun p => by rw [a1, List.mem_filter, (h s).2]⟩⟩
+    simp only [Ordered, a1]; exact (h s).1.2.sublist List.filter_sublist
+  | parF d s f =>
+    obtain ⟨x, y, e, b1, b2, a1, a2⟩ := partition_spec f (regs s) (h s).1.1
+    refine ⟨_, by simp [stepOp, e], srel_set h d ⟨⟨b2, ?_⟩, fun p => by rw [a2, List.mem_filter, (h s).2]; simp⟩⟩
+    simp only [Ordered, a2]; exact (h s).1.2.sublist List.filter_sublist
+  | splL d s k =>
+    obtain ⟨l, pres, r, e, i1, i2, m, g1, g2⟩ := split_inv hc (regs s) k (h s).1
+    refine ⟨_, by simp [stepOp, e], srel_set h d ⟨i1, fun p => ?_⟩⟩
+    show p ∈ abs l ↔ (ss s p ∧ rank p < rank k)
+    rw [← (h s).2, m]
+    constructor
+    · intro hp; exact ⟨Or.inl hp, g1 p hp⟩
+    · rintro ⟨hp | ⟨_, hp⟩ | hp, lt⟩
+      · exact hp
+      · rw [hp] at lt; omega
+      · have := g2 p hp; omega
+  | splR d s k =>
+    obtain ⟨l, pres, r, e, i1, i2, m, g1, g2⟩ := split_inv hc (regs s) k (h s).1
+    refine ⟨_, by simp [stepOp, e], srel_set h d ⟨i2, fun p => ?_⟩⟩
+    show p ∈ abs r ↔ (ss s p ∧ rank k < rank p)
+    rw [← (h s).2, m]
+    constructor
+    · intro hp; exact ⟨Or.inr (Or.inr hp), g2 p hp⟩
+    · rintro ⟨hp | ⟨_, hp⟩ | hp, lt⟩
+      · have := g1 p hp; omega
+      · rw [hp] at lt; omega
+      · exact hp
+  | frl d xs =>
+    obtain ⟨t', e, i, m⟩ := fromList_spec hc xs .empty ⟨by simp [Bal], by simp [Ordered, abs]⟩
+    exact ⟨_, by simp [stepOp, e], srel_set h d ⟨i, fun p => by rw [m]; simp [abs]⟩⟩
+
+theorem ops_refine_lemma {cmp : E → E → Int} {rank : E → Int} (hc : Lawful cmp rank)
+    (ops : List (SOp E)) (regs : Nat → STree E) (ss : Nat → E → Prop)
+    (h : ∀ i, SRel rank (regs i) (ss i)) :
+    ∃ regs', runOps cmp regs ops = some regs' ∧ ∀ i, SRel rank (regs' i) (specOps rank ss ops i) := by
+  induction ops generalizing regs ss with
+  | nil => exact ⟨regs, rfl, h⟩
+  | cons op ops ih =>
+    obtain ⟨r1, e1, h1⟩ := step_refines hc regs ss h op
+    obtain ⟨r2, e2, h2⟩ := ih r1 _ h1
+    exact ⟨r2, by simp [runOps, e1, e2], h2⟩
+
 end SamVerif.StdSet
